@@ -895,28 +895,37 @@ theorem typeNames_ne_nil : ∀ (l : List Tk) (n : Nat) (saw : Bool), sawAfter sa
 
 /-- the spellings of the specifier tokens say nothing else than their classes: no `typedef`
 storage class, no `_Atomic` qualifier (the fragment has neither) -/
-def SpecVals (l : List Tk) : Prop := ∀ t ∈ l, t.2 ≠ "typedef" ∧ t.2 ≠ "_Atomic"
+def SpecVals (l : List Tk) : Prop :=
+  ∀ t ∈ l, (t.1 ∈ storageClass → t.2 ≠ "typedef") ∧ (t.1 ∈ typeQualifier → t.2 ≠ "_Atomic")
 
 theorem addTok_storage_mem (n : Nat) (sp : DeclSpec) (t : Tk) (v : Val) (h : v ∈ (addTok n sp t).storage) :
-    v ∈ sp.storage ∨ v = .str t.2 := by
+    v ∈ sp.storage ∨ (v = .str t.2 ∧ t.1 ∈ storageClass) := by
   unfold addTok at h
   split at h
   · exact .inl h
   · split at h
-    · simp only [List.mem_append, List.mem_singleton] at h; exact h
+    · rename_i hc
+      simp only [List.mem_append, List.mem_singleton] at h
+      rcases h with h | h
+      · exact .inl h
+      · exact .inr ⟨h, by simpa using hc⟩
     · split at h <;> exact .inl h
 
 theorem addTok_qual_mem (n : Nat) (sp : DeclSpec) (t : Tk) (v : Val) (h : v ∈ (addTok n sp t).qual) :
-    v ∈ sp.qual ∨ v = .str t.2 := by
+    v ∈ sp.qual ∨ (v = .str t.2 ∧ t.1 ∈ typeQualifier) := by
   unfold addTok at h
   split at h
-  · simp only [List.mem_append, List.mem_singleton] at h; exact h
+  · rename_i hc
+    simp only [List.mem_append, List.mem_singleton] at h
+    rcases h with h | h
+    · exact .inl h
+    · exact .inr ⟨h, by simpa using hc⟩
   · split at h
     · exact .inl h
     · split at h <;> exact .inl h
 
 theorem foldSpec_storage_mem : ∀ (l : List Tk) (n : Nat) (sp : DeclSpec) (v : Val), v ∈ (foldSpec n sp l).storage →
-    v ∈ sp.storage ∨ ∃ t ∈ l, v = .str t.2
+    v ∈ sp.storage ∨ ∃ t ∈ l, v = .str t.2 ∧ t.1 ∈ storageClass
   | [], _, _, _, h => .inl h
   | t :: r, n, sp, v, h => by
     rcases foldSpec_storage_mem r (n + 1) _ v h with h' | ⟨t', ht', hv⟩
@@ -926,7 +935,7 @@ theorem foldSpec_storage_mem : ∀ (l : List Tk) (n : Nat) (sp : DeclSpec) (v : 
     · exact .inr ⟨t', List.mem_cons_of_mem _ ht', hv⟩
 
 theorem foldSpec_qual_mem : ∀ (l : List Tk) (n : Nat) (sp : DeclSpec) (v : Val), v ∈ (foldSpec n sp l).qual →
-    v ∈ sp.qual ∨ ∃ t ∈ l, v = .str t.2
+    v ∈ sp.qual ∨ ∃ t ∈ l, v = .str t.2 ∧ t.1 ∈ typeQualifier
   | [], _, _, _, h => .inl h
   | t :: r, n, sp, v, h => by
     rcases foldSpec_qual_mem r (n + 1) _ v h with h' | ⟨t', ht', hv⟩
@@ -945,15 +954,15 @@ theorem specOK_fold (l : List Tk) (n : Nat) (hl : SpecToks false l) (hv : SpecVa
     · rw [foldSpec_type l n {} false hl, htn]; rfl
     · simp only [specHasTypedef, List.any_eq_false]
       intro v hvm
-      rcases foldSpec_storage_mem l n {} v hvm with h | ⟨t, ht, rfl⟩
+      rcases foldSpec_storage_mem l n {} v hvm with h | ⟨t, ht, rfl, hk⟩
       · cases h
-      · have := (hv t ht).1
+      · have := (hv t ht).1 hk
         rw [Val.beq_str]; simpa using this
     · simp only [List.any_eq_false]
       intro v hvm
-      rcases foldSpec_qual_mem l n {} v hvm with h | ⟨t, ht, rfl⟩
+      rcases foldSpec_qual_mem l n {} v hvm with h | ⟨t, ht, rfl, hk⟩
       · cases h
-      · have := (hv t ht).2
+      · have := (hv t ht).2 hk
         rw [Val.beq_str]; simpa using this
 
 /-! ## declarations -/
